@@ -10,7 +10,7 @@ from hypothesis import strategies as st
 from vlib.ref import splitter as S
 from vlib.ref import workflow as RW
 
-TASKS = {"T1": "WT1", "T2": "WT2", "T3": "WT3", "L": "WL", "Sub1": "WSub1", "Sub2": "WSub2"}
+TASKS = {"T1": "WT1", "T2": "WT2", "T3": "WT3", "L": "WL", "LE": "WLE", "Sub1": "WSub1", "Sub2": "WSub2"}
 
 
 # ---------------------------------------------------------------------- rendering
@@ -27,7 +27,7 @@ def render(prog, clsname=None):
     lines = [
         "import typing as ty",
         "from pydra.compose import workflow",
-        "from vlib.tasks import WT1, WT2, WT3, WL, WSub1, WSub2",
+        "from vlib.tasks import WT1, WT2, WT3, WL, WLE, WSub1, WSub2",
         "",
         f"@workflow.define(outputs={outs!r})",
         f"def {clsname}({', '.join(f'{p}: ty.Any' for p in params)}):",
@@ -109,7 +109,7 @@ def programs(draw, max_nodes=5, allow_inner=True, allow_nested=True, allow_combi
     nodes = []
     kinds = ["T1", "T2", "T2", "T3"]
     if allow_inner:
-        kinds += ["L", "L"]
+        kinds += ["L", "L", "LE"]
     if allow_nested:
         kinds += ["Sub1", "Sub2"]
     stateless_head = draw(st.integers(0, 2)) == 0  # start with 1-2 nodes that have no state
@@ -118,7 +118,7 @@ def programs(draw, max_nodes=5, allow_inner=True, allow_nested=True, allow_combi
         fields = RW.FIELDS[kind]
         name = f"n{i}"
         src = {}
-        lists_up = [m["name"] for m in nodes if m["kind"] == "L"]
+        lists_up = [m["name"] for m in nodes if m["kind"] in ("L", "LE")]
         for f in fields:
             choice = draw(st.integers(0, 9))
             if nodes and choice <= 4:
@@ -204,14 +204,14 @@ def _lst(name, n):
 
 
 @st.composite
-def template_programs(draw, allow_inner=True, allow_nested=True, allow_combine=True):
+def template_programs(draw, allow_inner=True, allow_nested=True, allow_combine=True, shapes=None):
     """Programs built around a named interaction shape (joins of stateless/stateful inputs,
     diamonds, own+upstream combiners, inner-split chains), with randomised lengths, kinds,
     combiners and an optional trailing consumer.  Free random graphs rarely produce these."""
-    shape = draw(st.sampled_from([
+    shape = draw(st.sampled_from(shapes or [
         "stateless_pair_own_split", "stateless_pair_inherited", "fan_in_independent", "diamond",
         "shared_direct", "own_plus_upstream_combine", "combine_then_consume", "inner_chain",
-        "three_way_join", "two_upstreams_own_split_combine"]))
+        "three_way_join", "two_upstreams_own_split_combine", "split_consumer_and_independent_chain"]))
     L = lambda: draw(st.integers(1, 3))  # noqa: E731
     inputs, nodes = {}, []
 
@@ -276,7 +276,7 @@ def template_programs(draw, allow_inner=True, allow_nested=True, allow_combine=T
         node(one, {"a": ["node", b]})
     elif shape == "inner_chain" and allow_inner:
         a = node("T1", {"a": ["split", lst()]}, split="a")
-        b = node("L", {"a": ["node", a]})
+        b = node(draw(st.sampled_from(["L", "LE"])), {"a": ["node", a]})
         c = node("T1", {"a": ["splitnode", b]}, split="a",
                  combine=draw(st.sampled_from([None, ["a"], [f"{a}.a"], ["a", f"{a}.a"]])) if allow_combine else None)
         node("T1", {"a": ["node", c]})
@@ -289,6 +289,12 @@ def template_programs(draw, allow_inner=True, allow_nested=True, allow_combine=T
         order = draw(st.permutations(["a", "b", "c"]))
         node("T3", {order[0]: ["node", a], order[1]: ["node", b], order[2]: ["split", lst()]},
              split=order[2], combine=[order[2] if x == "c" else x for x in comb] if comb else None)
+    elif shape == "split_consumer_and_independent_chain":
+        a = node("T1", {"a": ["split", lst(draw(st.integers(2, 3)))]}, split="a")
+        node("T1", {"a": ["node", a]})
+        c = node("T1", {"a": ["const", "kc"]})
+        for _ in range(draw(st.integers(1, 3))):
+            c = node("T1", {"a": ["node", c]})
     else:  # three_way_join
         a = node("T1", {"a": ["split", lst()]}, split="a")
         b = node("T1", {"a": ["const", "kb"]})
